@@ -274,7 +274,8 @@ class C07(Base):
         ps, dist = both_pools(rng, tier, n_random=30 if tier == 'quick' else 400)
         for fam, p in ps:
             b = pk.encode(fam, p)
-            if len(b) > 70000 or (len(b) > 2000 and rng.random() < 0.6):
+            maxfield = 65530 < len(b) < 65700        # one maximal field: always kept
+            if len(b) > 70000 or (len(b) > 2000 and rng.random() < 0.6 and not maxfield):
                 continue
             n = len(b)
             if n <= 300:
@@ -283,6 +284,8 @@ class C07(Base):
                 cuts = sorted(set(list(range(24)) + [n - 1, n - 2, n - 3, n - 4] + [rng.randrange(n) for _ in range(20)]))
             if tier == 'quick' and n > 40:
                 cuts = sorted(set(cuts[:12] + cuts[-4:] + rng.sample(cuts, min(len(cuts), 10))))
+            if maxfield:
+                cuts = [2, n - 1] if tier == 'quick' else [2, n - 2, n - 1]
             for k in cuts:
                 c = 'dec %s %s' % (fam, pk.hx(b[:k]))
                 self.meta[c] = ('prefix', None)
@@ -377,6 +380,19 @@ class C08(Base):
                     self.meta[c] = (fam, fe, [pk.tok(fam, p) for p, _ in seq], [len(b) for _, b in seq])
                     cs.append(c)
                     hist(dist, 'seq:%s:%d' % (fe, len(seq)))
+        # a packet with one maximal (65,533..65,535-byte) field between two small ones: framing must survive
+        for fam, p in ps:
+            b = pk.encode(fam, p)
+            if not 65530 < len(b) < 65700 or (tier == 'quick' and rng.random() < 0.5):
+                continue
+            q = ('pingreq',)
+            seq = [(q, pk.encode(fam, q)), (p, b), (q, pk.encode(fam, q))]
+            stream = b''.join(x for _, x in seq)
+            for fe in ('block', 'async', 'poll'):
+                c = 'stream %s %s %s %d' % (fam, fe, pk.hx(stream), 100000 if fe != 'async' else rng.choice([4096, 100000]))
+                self.meta[c] = (fam, fe, [pk.tok(fam, x) for x, _ in seq], [len(x) for _, x in seq])
+                cs.append(c)
+                hist(dist, 'seq:max-field:%s' % fe)
         return cs, dist
 
     def judge(self, case, line, spec, ctx, i):
@@ -436,6 +452,14 @@ class C13(Base):
                 self.meta[c] = (fam, p, len(b))
                 cs.append(c)
                 hist(dist, 'cross:%s->%s' % (fam, other))
+        t = (b'xy' * 32768)[:65535]
+        huge = ('connect', 5, 1, 10, ({21: t, 22: t}, [(t, t)]), t, (1, 0, ({}, []), (b'a/' * 32768)[:65535], t), t, t)
+        hb = pk.encode('v5', huge)
+        for sfx in (b'', b'\xc0\x00'):
+            c = 'cross v3 %s' % pk.hx(hb + sfx)
+            self.meta[c] = ('v5', huge, len(hb))
+            cs.append(c)
+            hist(dist, 'cross:v5->v3:larger-than-any-v3-connect')
         for nm in self.NAMES:
             for lvl in range(256):
                 cs.append('proto %s %d' % (pk.hx(nm), lvl))
@@ -826,6 +850,17 @@ class C04(Base):
         for b, kind, pid_, exp in carrier_matrix():
             cs.append('dec v5 ' + pk.hx(b))
             hist(dist, 'property-carrier-matrix')
+        # topic filters and topic names of every shape inside the packets that carry them
+        sp = [x for x in props.string_pool(rng, tier) if len(x) < 40 and utf8_ok(x)]
+        for flt in props.NASTY_FILTERS + rng.sample(sp, min(len(sp), 1200 if tier == 'quick' else 30000)):
+            for fam, p in (('v3', ('subscribe', 5, [(b'ok/+', 0), (flt, 1)])), ('v3', ('unsubscribe', 5, [flt])),
+                           ('v5', ('subscribe', 5, ({}, []), [(flt, 1, 0, 0, 0)])), ('v5', ('unsubscribe', 5, ({}, []), [b'a', flt])),
+                           ('v3', ('publish', 0, 0, 1, 9, flt, b'pl')), ('v5', ('publish', 0, 0, 0, 0, flt, ({35: 1}, []), b'pl')),
+                           ('v5', ('connect', 5, 1, 10, ({}, []), b'c', (1, 0, ({8: flt}, []), flt, b'm'), None, None))):
+                if rng.random() < 0.6 and flt not in props.NASTY_FILTERS:
+                    continue
+                cs.append('dec %s %s' % (fam, pk.hx(pk.encode(fam, p))))
+                hist(dist, 'topic-shapes:' + p[0])
         # acceptance is a function of the frame, not of how the transport delivers it: one byte per read with a Pending
         # before every byte (in particular inside the remaining-length field of frames with bodies >= 128 bytes)
         fr = [(c.split()[1], bytes.fromhex(c.split()[2][1:])) for c in cs if c.startswith('dec ') and len(c) < 2000]
